@@ -119,6 +119,12 @@ export function genTy(rng, d, sc) {
       // one variant open through an index signature (its declared members are string literals, which conform): the keys it
       // admits are admitted in strict mode too, for that variant only
       if (rng.chance(1, 3)) { const v = rng.pick(vs); v[1] = v[1].filter((m) => m[0] === key || m[0] === key2); v[2] = [A("string"), rng.pick([A("string"), A("unknown"), [A("union"), A("string"), A("number")]])]; }
+      // two variants under ONE tag, told apart by a second property (`{type:"a",sub:"x",…} | {type:"a",sub:"y",…} | {type:"b",…}`)
+      else if (!key2 && rng.chance(1, 3)) {
+        const twin = [A("obj"), [[key, A("false"), [A("lit"), [A("s"), "a"]]], ["sub", A("false"), [A("lit"), [A("s"), "y"]]], ...genObjMembers(rng, d - 1, sc).filter((m) => m[0] !== key && m[0] !== "sub")], A("none")];
+        vs[0][1] = [vs[0][1][0], ["sub", A("false"), [A("lit"), [A("s"), "x"]]], ...vs[0][1].slice(1).filter((m) => m[0] !== "sub")];
+        vs.splice(1, 0, twin);
+      }
       return [A("union"), ...vs];
     }
     case 8: return [A("inter"), ...Array.from({ length: 2 }, () => (sc.objNames.length && rng.chance(1, 2) ? [A("ref"), rng.pick(sc.objNames)] : genObj(rng, d - 1, sc, false)))];
@@ -149,7 +155,8 @@ export function genProg(rng) {
     const generic = rng.chance(1, 3);
     const params = generic ? ["T"] : [];
     // a declaration called like the type parameter of the generic ones: scoping of `T` is lexical
-    const name = i === 0 && !generic && rng.chance(1, 4) ? "T" : (rng.chance(1, 2) ? "O" : "N") + i;
+    // … and one called `K`, the name describe() gives the key variable of every record it prints
+    const name = i === 0 && !generic && rng.chance(1, 4) ? rng.pick(["T", "K"]) : (rng.chance(1, 2) ? "O" : "N") + i;
     const sc = { names: names.slice(), objNames: objNames.slice(), params };
     const isObj = name.startsWith("O");
     if (isObj) {
@@ -506,7 +513,8 @@ function oddProject(rng) {
       return files;
     }
     default: {
-      const chain = 30 + rng.below(120);
+      // (sometimes far beyond any nesting limit: the answer must then be a diagnostic, not an exhausted stack)
+      const chain = rng.chance(1, 3) ? rng.pick([400, 1500, 4000]) : 30 + rng.below(120);
       const decls = Array.from({ length: chain }, (_, i) => `type N${i} = { v: ${i + 1 < chain ? "N" + (i + 1) : "string"} };`).join("\n");
       return [["entry.ts", decls + "\nparse.buildParsers<{ E0: N0 }>();\n"]];
     }
@@ -557,6 +565,25 @@ export function gen(rng, params, mode) {
       const extra = ["a", "b", { tag: "b" }, { tag: "a" }, "internal", { tag: "internal2" }, 1, null, ...en.extra];
       return [A("split"), A(String(counter++)), p2, [["entry.ts", single]], [...vals, ...extra].map(encVal), sp.proj, multi, sp.expect, A("enum")];
     }
+    if (rng.chance(1, 8) && isAtom(sp.expect, "ok")) {
+      // the `const Status = {…} as const; type Status = (typeof Status)[keyof typeof Status]` idiom, split so that a file
+      // IMPORTS the value `Status` and DECLARES the type `Status` (a value-only import and a local type of one name are
+      // different meanings and do not clash) — not modelled in Lean: marker `enum` (outcome and bits compared only)
+      const nm = rng.pick(["Status", "Kind", "Cfg"]);
+      const obj = '{ A: "a", B: "b" }';
+      const ty = (v) => `(typeof ${v})[keyof typeof ${v}]`;
+      const use = rng.pick([(q) => q, (q) => `{ tag: ${q} }`, (q) => `${q} | 1`]);
+      const addExport = (src, t) => src.replace(/ \}>\(\);\n$/, `, EN: ${t} }>();\n`);
+      const single = `const ${nm} = ${obj} as const;\ntype ${nm} = ${ty(nm)};\n` + addExport(tsOfProg(p), use(nm));
+      const how = rng.below(3);
+      const imp = how === 0 ? `import { ${nm} } from "./consts_v";` : how === 1 ? `import ${nm} from "./consts_v";` : `import { Val as ${nm} } from "./consts_v";`;
+      const lib = how === 0 ? `export const ${nm} = ${obj} as const;\n` : how === 1 ? `const V = ${obj} as const;\nexport default V;\n` : `export const Val = ${obj} as const;\n`;
+      const tyFile = `${imp}\nexport type ${nm} = ${ty(nm)};\n`;
+      const multi = sp.files.map(([n, t]) => (n === "entry.ts" ? [n, `import type { ${nm} } from "./types_v";\n` + addExport(t, use(nm))] : [n, t])).concat([["consts_v.ts", lib], ["types_v.ts", tyFile]]);
+      const p2 = [p[0], p[1], [...p[2], ["EN", A("unknown")]]];
+      const extra = ["a", "b", "c", { tag: "a" }, { tag: "c" }, 1, null];
+      return [A("split"), A(String(counter++)), p2, [["entry.ts", single]], [...vals, ...extra].map(encVal), sp.proj, multi, sp.expect, A("enum")];
+    }
     return [A("split"), A(String(counter++)), p, [["entry.ts", tsOfProg(p)]], vals.map(encVal), sp.proj, sp.files, sp.expect, sp.breakKind];
   }
   if (mode === "prog-strict") {
@@ -579,6 +606,8 @@ export function gen(rng, params, mode) {
   if (mode === "prog-describe") {
     const p = genProg(rng);
     p[2] = [p[2][0]]; // one export
+    // a type called K used twice (so that it is printed as a declaration), once as the value type of a record
+    if (p[1].some((d) => d[1] === "K" && d[2].length === 0) && rng.chance(1, 2)) p[2] = [["E0", [A("obj"), [["a", A("false"), [A("ref"), "K"]], ["r", A("false"), rng.pick([[A("bi"), "Record", A("string"), [A("ref"), "K"]], [A("obj"), [], [A("string"), [A("ref"), "K"]]]])]], A("none")]]];
     const vals = genValues(rng, p, Number(params[0] || 12));
     return [A("describe"), A(String(counter++)), p, [["entry.ts", tsOfProg(p)]], vals.map(encVal)];
   }
@@ -594,7 +623,19 @@ export function gen(rng, params, mode) {
     src = ct.decls + "\n" + tsOfProg([p[0], p[1], p[2].map(([n, t]) => (n === "EC" ? [n, A("typeof " + ct.name)] : [n, t]))]);
   }
   const vals = genValues(rng, p, nvals);
-  return [A("prog"), A(String(counter++)), p, [["entry.ts", src ?? tsOfProg(p)]], vals.map(encVal)];
+  // JSDoc on declarations and on property signatures: descriptions travel into the emitted code and nowhere else
+  let text = src ?? tsOfProg(p);
+  if (rng.chance(1, 4)) {
+    let k = 0;
+    text = text.split("\n").map((l) => {
+      if (!/^(type|interface) /.test(l)) return l;
+      let r = l;
+      if (rng.chance(1, 2)) r = r.replace(/\{ (?=[A-Za-z_"])/, () => `{ /** prop doc ${k++} */ `);
+      if (rng.chance(1, 2)) r = `/** decl doc ${k++} */\n` + r;
+      return r;
+    }).join("\n");
+  }
+  return [A("prog"), A(String(counter++)), p, [["entry.ts", text]], vals.map(encVal)];
 }
 // constant declarations `const Ck = { … } as const;` with spreads of earlier constants at any position
 function genConstTypeof(rng) {
@@ -741,13 +782,32 @@ export function makeRunner(rt_, mode, build) {
     let parsers;
     try { parsers = mod.buildParsers({ stringFormats: {}, numberFormats: {} }); } catch (e) { return [[A("load-error"), String(e && e.message).slice(0, 200)], [A("oracle"), A("fail"), A("c04.load")]]; }
     const vals = req[4].map(decVal);
+    if (mode === "prog-schema") {
+      // C02 on COMPILED validators: flat schema() and schemaWithContext() + exportDefinitions() of the first export, with the
+      // JSON documents among the values; judged by the jsonschema oracle stage (same data layout as mode_schema)
+      const cg = rt_.cg;
+      const name0 = req[2][2][0][0];
+      const pr = parsers[name0];
+      if (!pr) return [[A("pschema"), A("missing")], [A("oracle-data"), JSON.stringify({})]];
+      const jsonOrThrow = (f) => { try { return { ok: true, v: f() }; } catch (e) { return { ok: false, msg: String(e && e.message) }; } };
+      const isJsonDoc = (v) => { try { return v !== undefined && show(encVal(JSON.parse(JSON.stringify(v)))) === show(encVal(v)); } catch { return false; } };
+      const docs = vals.filter(isJsonDoc);
+      const tpl = "#/$defs/{name}", key = "$defs";
+      const flat = jsonOrThrow(() => pr.schema());
+      const fc = new cg.SchemaPrintingContext({ refPathTemplate: tpl, definitionContainerKey: key });
+      const r = jsonOrThrow(() => pr.schemaWithContext(fc));
+      const data = { tpl, key, docs, calls: [], flat: [flat.ok ? flat.v : null], flatMsg: [flat.ok ? null : flat.msg],
+        bits: docs.map((d) => { try { return [pr.validate(d), pr.validate(d, { disallowExtraProperties: true })]; } catch { return [null, null]; } }),
+        fresh: [{ ok: r.ok, schema: r.ok ? r.v : null, defs: JSON.parse(JSON.stringify(fc.exportDefinitions())) }] };
+      return [[A("pschema"), A(flat.ok ? "flat" : "flat-throws"), A(r.ok ? "ctx" : "ctx-throws")], [A("oracle-data"), JSON.stringify(data)]];
+    }
     const out = [A("bits")];
     const bad = [];
     for (const [name] of req[2][2]) {
       const pr = parsers[name];
       if (!pr) { bad.push(A("c04.missing-parser")); out.push([A(name), "missing"]); continue; }
       let bits = "";
-      if (head(req) === "strict") {
+      if (head(req) === "strict" || head(req) === "semstrict") {
         // default-mode bits, then strict-mode bits; strict acceptance implies default acceptance
         let dflt = "";
         for (const v of vals) { try { dflt += pr.validate(v) ? "1" : "0"; } catch (e) { dflt += "T"; bad.push(A("c03.throw")); } }
